@@ -37,10 +37,10 @@ impl Monitor for C05 {
         "cases = seeded random universes weighted to families that backtrack (medium / constrains-heavy / layered) with and without hints and soft lists, run synchronously and under an async schedule with random activity parameters; for every Ok result the reference `support` set (reachability from root requirements and accepted soft solvables over requirement edges whose satisfying candidate is in the solution) must equal the solution. distinct = content hash; non-trivial = distinct Ok case with >= 1 conflict (backjump) or restart and |solution| >= 3".into()
     }
     fn cases(&self, tier: Tier) -> u64 {
-        tier.pick(40_000, 2_000_000)
+        tier.pick(320_000, 6_400_000)
     }
     fn floor(&self, tier: Tier) -> u64 {
-        tier.pick(300, 20_000)
+        tier.pick(1_200, 12_000)
     }
     fn generate(&self, r: &mut Rng, _tier: Tier, _i: u64) -> SolverCase {
         let (name, cfg) = pick_family(r, FAMILIES);
